@@ -69,4 +69,11 @@ theorem break_never_negative_float (s e : Str) (sv ev : Float)
   ⟨FM.le_max_left sv ev (floatParse_not_nan s sv hs) (floatParse_not_nan e ev he),
    FM.max_not_nan_right sv ev (floatParse_not_nan e ev he)⟩
 
+/-! ### non-vacuity on actual doubles -/
+
+example : Scalar.clamp (99 : Float) 0.4 3.6 = 3.6 ∧ Scalar.clamp (-4 : Float) 0.5 8 = 0.5 ∧
+    Scalar.clamp (1.4 : Float) 0.4 3.6 = 1.4 := by decide +kernel
+
+example : Scalar.lt (Scalar.max (100 : Float) 50) 100 = false := max_not_before_float 100 50 (by decide +kernel)
+
 end Rosu.C11
